@@ -24,6 +24,7 @@ require (
 	github.com/holiman/uint256 v1.2.4 // indirect
 	github.com/iancoleman/orderedmap v0.3.0 // indirect
 	github.com/kr/text v0.2.0 // indirect
+	github.com/pokt-network/smt v0.9.2 // indirect
 )
 
 replace (
